@@ -183,4 +183,24 @@ PROPS = {
             {"engine": "th", "quick": 460, "thorough": 460, "what": "E-T: thread-local actors (spawner thread, AbortOnDropHandle path), CutAfter / CutLate"},
         ],
     },
+    "C09": {
+        "level": "exploration",
+        "technique": "runtime monitoring: caller-side (call id, timeout, issue/completion virtual time, result) vs callee-side (call id -> value sent / port dropped / kept, time) logs checked offline for cross-wiring, lost replies, timeout exactness and completion; thread-engine race of callers against callee exit for the never-hangs clause",
+        "level_text": ("Exploration: (vt) 1-64 concurrent callers x {reply now / after d / from a spawned task / drop the port / keep the port} x "
+                       "timeouts and reply delays on one millisecond grid (so d=T boundaries are hit exactly) x callee stop/kill/drain/panic "
+                       "at a grid instant, through call, multi_call (1-3 callees, request order) and call_and_forward (exactly-once "
+                       "forwarding); a caller still pending at the virtual horizon is a hang. (th) 2-12 caller tasks x 1-40 un-timed calls "
+                       "on 4 worker threads racing a stop/kill/drain/panic from another thread. Held on what was observed, except the "
+                       "recorded finding F8."),
+        "level_note": ("On the thread engine a 15 s wall-clock guard around each un-timed call decides 'hung' only together with the facts "
+                       "'callee Stopped' and 'never dequeued'; the virtual-time runs need no deadline."),
+        "rule": ("vt: non-trivial = >= 2 calls and (some call had a timeout or the callee exited); distinct = hash(sequence of call results, "
+                 "scenario parameters). th: non-trivial = some calls succeeded and some failed (the exit landed amid the traffic); distinct = "
+                 "hash(callers, #ok (capped), #failed, exit kind)."),
+        "assumptions": ["callee logs the value it sends on each call's own port"],
+        "runs": [
+            {"engine": "vt", "quick": 12000, "thorough": 800000, "what": "E-A: virtual-time grid of delays/timeouts/exits, call + multi_call + call_and_forward"},
+            {"engine": "th", "quick": 8000, "thorough": 1500000, "what": "E-T: concurrent un-timed callers vs callee exit from another thread"},
+        ],
+    },
 }
